@@ -25,7 +25,10 @@ def make_spec(g, allow):
             execs.append((name, cs))
     if r.random() < 0.5:
         r.shuffle(execs)
-    return dict(cfgs=h.cfgs, execs=execs, flags=set(h.flags), upd=r.choice(['', 'true']))
+    # nesting: an execution may run completely *between two calls* of another one (a subtest between
+    # two assertions of its parent, or parallel tests)
+    nest = suites.gen_nest(r, execs, 0.35)
+    return dict(cfgs=h.cfgs, execs=execs, flags=set(h.flags), upd=r.choice(['', 'true']), nest=nest)
 
 
 def oracle(line, raw, w):
@@ -92,13 +95,31 @@ def render(tag, spec):
     w.add(mode_line(False, spec['upd']))
     for c in spec['cfgs']:
         w.add(c)
-    last = None
-    for texec, (name, calls) in enumerate(spec['execs'], 1):
+    last = [None]
+    nest = {i: v for i, v in spec.get('nest', {}).items() if i < len(spec['execs']) and v[0] < len(spec['execs'])}
+    hosted = {}
+    for i, (host, pos) in nest.items():
+        hosted.setdefault(host, []).append((pos, i))
+
+    def emit(i):
+        name, calls = spec['execs'][i]
+        texec = i + 1
         w.add('begin %d %s' % (texec, core.hx(name)))
-        for cfgno, c in calls:
+        inner = sorted(hosted.get(i, []))
+        for k, (cfgno, c) in enumerate(calls):
+            for pos, j in inner:
+                if pos == k:
+                    emit(j)
             w.add(c.op(cfgno, texec))
-            last = w.add('fsdump')
+            last[0] = w.add('fsdump')
+        for pos, j in inner:
+            if pos >= len(calls):
+                emit(j)
         w.add('end %d' % texec)
+    for i in range(len(spec['execs'])):
+        if i not in nest:
+            emit(i)
+    last = last[0]
     if last is not None:
         w.expect[last] = ('slot-addressing-and-isolation', oracle)
     return w
